@@ -84,6 +84,28 @@ Theorem C01_no_runtime_step_touches_requested_effects : forall fuel cid w H r H'
   poll_next fuel cid w H = Some (r, H') -> exists requested, hout H' = hout H ++ requested.
 Proof. exact Perm.hout_poll_next. Qed.
 
+(* The same for apps written against the LEGACY capability API (coq/Rt/Legacy.v: QueuingExecutor::run_all with its
+   did_some_work flag, CapabilityContext::{spawn, notify_shell, update_app, request_from_shell, stream_from_shell}):
+   run_all returns only with the spawn queue and the ready queue empty; the event loop returns only with, in
+   addition, no event unapplied; during a call the request channel only grows and the call hands over all of it.
+   For every handler table, core state and fuel. *)
+From Crux Require Rt.Legacy Rt.LegacyProps.
+Theorem C01_legacy_run_all_runs_to_quiescence : forall fuel k k',
+  Legacy.lrun_all fuel k = Some k' -> Legacy.l_spawn k' = [] /\ Legacy.l_ready k' = [].
+Proof. intros fuel k k' E. destruct (LegacyProps.lrun_all_spec fuel k k' E) as (_ & A & B). split; assumption. Qed.
+Theorem C01_legacy_call_runs_to_quiescence : forall fuel hs k k', Legacy.lprocess fuel hs k = Some k' ->
+  Legacy.l_spawn k' = [] /\ Legacy.l_ready k' = [] /\ Legacy.l_events k' = [] /\
+  exists requested, Legacy.l_out k' = Legacy.l_out k ++ requested.
+Proof.
+  intros fuel hs k k' E. destruct (LegacyProps.lprocess_spec fuel hs k k' E) as (_ & O & A & B & C).
+  split; [exact A | split; [exact B | split; [exact C | exact O]]].
+Qed.
+Theorem C01_legacy_call_hands_over_the_whole_channel : forall code k,
+  fst (Legacy.ltake_out code k) = OCall code (map Legacy.loeff (Legacy.l_out k)) (Legacy.l_log k) /\
+  Legacy.l_out (snd (Legacy.ltake_out code k)) = [] /\
+  Legacy.l_reqs (snd (Legacy.ltake_out code k)) = Legacy.l_reqs k ++ Legacy.l_out k.
+Proof. exact LegacyProps.ltake_out_hands_over_everything. Qed.
+
 From Crux Require Rt.Ref Rt.RefCore Rt.RefCoreProps Rt.RefQuiesce.
 Theorem C01_ref_rerun_is_silent : forall fuel en c n c' n' o,
   Ref.run fuel en c n = Some (c', n', o) -> forall g m, fuel <= g -> Ref.run g en c' m = Some (c', m, Ref.ro0).
